@@ -1,0 +1,57 @@
+//go:build verif
+
+// Contracts for package dmap (comment-only; read by /verif/govc, never compiled into olric).
+
+package dmap
+
+// Structural invariant of a started Service (established in NewService; assumed by handlers).
+//@ pred (s *Service) parts() = s.primary.inv() && s.backup.inv() && s.primary.count == s.config.PartitionCount && s.backup.count == s.config.PartitionCount
+
+//@ func (dm *DMap) Scan(partID, cursor uint64, sc *ScanConfig) ([]string, uint64, error)
+//@   props C16 C12
+//@   flag wired 3
+//@   flag skip assert
+//@   requires #sc: sc != nil
+//@   requires #parts: dm.s.parts()
+
+// Deep callees of the command handlers whose bodies are not verified for C16: only the shape of their
+// results is assumed (a nil error comes with a usable result). Listed as trusted in the evidence.
+//@ func (s *Service) getOrCreateDMap(name string) (*DMap, error)
+//@   props C16
+//@   trusted
+//@   ensures #nonnil: result.1 == nil ==> result.0 != nil && result.0.s == s
+
+//@ func (dm *DMap) Get(ctx context.Context, key string) (storage.Entry, error)
+//@   props C16
+//@   trusted
+//@   ensures #nonnil: result.1 == nil ==> result.0 != nil
+
+//@ func (dm *DMap) getOnFragment(e *env) (storage.Entry, error)
+//@   props C16
+//@   trusted
+//@   ensures #nonnil: result.1 == nil ==> result.0 != nil
+
+//@ func (s *Service) validateFragmentPack(fp *fragmentPack) error
+//@   props C16 C03
+//@   flag termination
+//@   flag wired 2
+//@   requires #fp: fp != nil
+//@   requires #parts: s.parts()
+//@   ensures  #in_range: result == nil ==> fp.PartID < s.config.PartitionCount
+
+//@ func (s *Service) moveFragmentCommandHandler(conn redcon.Conn, cmd redcon.Command)
+//@   props C16
+//@   flag termination
+//@   flag wired 2
+//@   requires #args: len(cmd.Args) >= 1
+//@   requires #parts: s.parts()
+
+// The option closures are stored in a slice and called back; their being non-nil is not tracked through
+// the slice (flag skip nil), everything else in the handler is checked.
+//@ func (s *Service) scanCommandHandler(conn redcon.Conn, cmd redcon.Command)
+//@   props C16
+//@   flag termination
+//@   flag wired 2
+//@   flag skip nil
+//@   requires #args: len(cmd.Args) >= 1
+//@   requires #parts: s.parts()
